@@ -270,6 +270,8 @@ function and every function at least one parameter (`f()` is "empty parameter li
 supported", a rule without a function is a syntax error; the harness re-checks both on every run). -/
 def ParserWF (rs : Prog) : Prop := ∀ r ∈ rs, r.funcs ≠ [] ∧ ∀ f ∈ r.funcs, f.params ≠ []
 
+instance (rs : Prog) : Decidable (ParserWF rs) := by unfold ParserWF; infer_instance
+
 /-- every function of the rule either has a parameter or a call without parameters is read as the
 empty disjunction (`false`) by the backend. -/
 def emptyOkR {δ : Type} (S : Sem δ) (r : Rule) : Bool :=
